@@ -199,6 +199,10 @@ structure SrcOut where
   code : Code
   st : CState
 
+def SourceList.isNil : SourceList → Bool
+  | .nil => true
+  | .cons _ _ => false
+
 def addSources (st : CState) (accts : List Addr) : CState := { st with sources := unionAddr st.sources accts }
 
 mutual
@@ -262,7 +266,7 @@ def visitSources (st : CState) (pushAsset : Code) (isAll : Bool) :
     match visitSource st pushAsset isAll s with
     | .error er => .error er
     | .ok so =>
-      let last : Bool := match rest with | .nil => true | .cons _ _ => false
+      let last : Bool := rest.isNil
       if so.fallback.isSome && !last then .error .static else
       if so.emptied.any (fun k => em.contains k) then .error .static else
       match visitSources so.st pushAsset isAll rest (unionAddr nd so.needed) (em ++ so.emptied) with
